@@ -238,7 +238,50 @@ pub fn exec(op: &str, a: &[u64]) -> Result<Outcome, String> {
             }
             Ok(o)
         }
+        "wstable" => {
+            let lo = r.nat()? as u32;
+            let hi = r.nat()? as u32;
+            r.end()?;
+            let v: Vec<u64> = (lo..hi).filter(|c| char::from_u32(*c).map(|c| c.is_whitespace()).unwrap_or(false)).map(|c| c as u64).collect();
+            let mut out = vec![];
+            enc_nats(&mut out, v);
+            Ok(Outcome::new(ok(out)))
+        }
+        "utf8table" => {
+            let lo = r.nat()? as u32;
+            let hi = r.nat()? as u32;
+            r.end()?;
+            let mut n = 0u64;
+            let mut len = 0u64;
+            let mut acc = 7u64;
+            for c in (lo..hi).filter_map(char::from_u32) {
+                n += 1;
+                let mut buf = [0u8; 4];
+                for b in c.encode_utf8(&mut buf).bytes() {
+                    len += 1;
+                    acc = (acc * 257 + b as u64 + 1) % 1_000_000_007;
+                }
+            }
+            Ok(Outcome::new(ok([n, len, acc])))
+        }
         _ => Err(format!("unknown op {op}")),
+    }
+}
+
+/// the model's Unicode tables against the standard library: White_Space (`char::is_whitespace`) and UTF-8
+/// (`char::encode_utf8`); all code points in the thorough tier, the table boundaries in the quick tier
+pub fn unicode_tables(ctx: &mut Ctx) {
+    if !ctx.first_shard() {
+        return;
+    }
+    let chunks: Vec<(u64, u64)> = if ctx.thorough {
+        (0..0x110000u64).step_by(0x1000).map(|lo| (lo, lo + 0x1000)).collect()
+    } else {
+        vec![(0, 0x100), (0x1600, 0x1700), (0x2000, 0x2100), (0x3000, 0x3010), (0x7f0, 0x810), (0xd7f0, 0xe010), (0xfff0, 0x10010), (0x10fff0, 0x110000)]
+    };
+    for (lo, hi) in chunks {
+        ctx.case("wstable", &[lo, hi]);
+        ctx.case("utf8table", &[lo, hi]);
     }
 }
 
@@ -262,6 +305,7 @@ fn req_gtext(s: &str, g: bool) -> Vec<u64> {
 }
 
 pub fn run_c11(ctx: &mut Ctx) {
+    unicode_tables(ctx);
     // corpus: hand-written edge cases first
     let corpus = [
         "", " ", "a", " a", "a ", "a  b", "\t a \u{3000}b\r\n", "a\n\u{301}", "a \u{301}b", "\u{200B} a",
